@@ -3,7 +3,7 @@ import DigModel.Engine
   The public API as a state machine: New(options), Scope, Provide, Decorate,
   Invoke (container.go, scope.go, provide.go, decorate.go, invoke.go).
 
-  The model describes the tree with the repairs F1, F2, F3, F7, F12 applied.
+  The model describes the tree with the repairs F1, F2, F3, F7, F12, F15, F16 applied.
 -/
 namespace Dig
 
@@ -229,17 +229,20 @@ def apiDecorate (ctx : Ctx) (fn : Fn) (st : St) (i : Nat) (s : Nat) (cb info : B
   match fn.nonfunc with
   | some _ => (st, { v := .err .invalid0 })
   | none =>
+    -- a rejected decorator leaves nothing behind: the graph nodes added by the parse are rolled back (repair of F15;
+    -- the provider table is not touched by a Decorate, restoring it is the identity)
+    let reject (w : St) (e : DErr) : St × RegRes := (rollbackProvide st w s (st.subscopes s), { v := .err e })
     match parseParams ctx.env st s fn with
-    | (.error e, w) => (w, { v := .err e })
+    | (.error e, w) => reject w e
     | (.ok params, w) =>
       match newResultList ctx.env {} fn with
-      | .error e => (w, { v := .err e })
+      | .error e => reject w e
       | .ok results =>
         match resultKeys ctx.env (slotResults results) with
-        | .error e => (w, { v := .err e })
+        | .error e => reject w e
         | .ok keys =>
           if hasDup keys || keys.any (fun k => (aget (w.scope s).decorators k).isSome) then
-            (w, { v := .err .invalid0 })
+            reject w .invalid0
           else
             let d := w.decos.length
             let node : DecoNode :=
@@ -263,7 +266,8 @@ def apiInvoke (ctx : Ctx) (fn : Fn) (st : St) (s : Nat) (info : Bool) : St × Op
   | some _ => (st, { v := .err .invalid0 })
   | none =>
     match parseParams ctx.env st s fn with
-    | (.error e, w) => (w, { v := .err e })
+    -- the function is rejected: the graph nodes of the parameters parsed so far are rolled back (repair of F16)
+    | (.error e, w) => (rollbackProvide st w s (st.subscopes s), { v := .err e })
     | (.ok params, w) =>
       match shallowCheck s params w with
       | (.error f, w) => (w, { v := failToVerdict f })
